@@ -9,7 +9,7 @@ RULE = ("ops: 'dec' = primitives of the decimal model (add/sub/mul/div/round) on
         "'scale' = (integer signal width 1..64 signed/unsigned, non-zero factor and offset with 1..12 significant digits, exponents "
         "-10..6 (one in ten: -40..-11 or 7..20), both signs, optional value table; raw value: every raw for widths <= 12 in thorough / <= 6 in quick, boundaries "
         "and random interior otherwise) observing raw2phys, phys2raw(raw2phys), named_value, default min/max, raw range; "
-        "'label' = value-table label to raw key. Non-trivial = distinct case with a non-integer factor or non-zero offset.")
+        "Value tables include labels that differ in letter case or blanks only; another signal with the same labels on other keys converts first. 'label' = value-table label to raw key. Non-trivial = distinct case with a non-integer factor or non-zero offset.")
 EXHAUSTIVE = {"quick": False, "thorough": False}
 PARTIAL = ["float signals (raw value converted through Decimal(float)) are outside this property (integer signals)",
            "cases whose exact product or sum needs more than 28 significant digits are outside the stated domain; they are still "
@@ -71,7 +71,8 @@ def rand_sigdesc(rng, width=None):
             k = rng.choice([lo, hi, 0, 1, rng.randint(lo, hi)])
             if lo <= k <= hi and k not in keys:
                 keys.append(k)
-        labels = ["On", "Off", "Error", "SNA", "Init", "On", "", "0", "two words"]     # a description may be empty
+        # a description may be empty; descriptions that differ in letter case or in blanks are different descriptions
+        labels = ["On", "Off", "Error", "SNA", "Init", "On", "", "0", "two words", "on", "ON", " On", "off"]
         values = [[k, rng.choice(labels)] for k in keys]
     return {"size": size, "signed": signed, "factor": rand_factor(rng), "offset": rand_offset(rng), "values": values}
 
